@@ -321,7 +321,26 @@ def run_job(job):
             case["overlaps"] = [dict(o) for o in _overlaps]
             case["nblocks_calls"] = len(_blocks)
             case["blocks_same_chunks"] = bool(all(b["same_chunks"] for b in _blocks))
-            got = np.asarray(compute(res.data, case["sched"], case["nw"])) if case["lazy"] else np.asarray(res.data)
+            if case["lazy"] and ch.get("joint"):
+                # evaluate this result TOGETHER with the same function applied to other rasters (values shifted):
+                # two lazy results in one graph must not interfere (task-key collisions); both are compared
+                rn2 = [mk(band(base, i) * 1.5 + 2.0, job) for i in range(nb)]
+                ref2 = np.asarray(call(job, rn2).data)
+                rd2 = [mk(band(base, i) * 1.5 + 2.0, job, chunks=(rows, cols)) for i in range(nb)]
+                res2 = call(job, rd2)
+                import dask as _dask
+                kw = {"scheduler": "synchronous"} if case["sched"] != "threads" else {"scheduler": "threads",
+                                                                                      "num_workers": case["nw"]}
+                got, got2 = _dask.compute(res.data, res2.data, **kw)
+                got, got2 = np.asarray(got), np.asarray(got2)
+                if got2.shape == ref2.shape:
+                    g2 = got2.astype(ref2.dtype)
+                    same2 = (g2 == ref2) | (np.isnan(g2) & np.isnan(ref2)) if ref2.dtype.kind == "f" else (g2 == ref2)
+                    if not same2.all():
+                        case["joint_other_differs"] = int((~same2).sum())
+                        case["joint_other_ulp"] = ulps(g2, ref2, coarse32=True)
+            else:
+                got = np.asarray(compute(res.data, case["sched"], case["nw"])) if case["lazy"] else np.asarray(res.data)
             case["meta_ok"] = bool(res.dims == ref_da.dims and dict(res.attrs) == dict(ref_da.attrs)
                                    and all(np.array_equal(res[c].values, ref_da[c].values) for c in ref_da.coords))
             if got.shape != ref.shape:
@@ -360,6 +379,10 @@ def run_job(job):
                     case["example"] = {"got": repr(g[diff][:3].tolist()), "ref": repr(ref[diff][:3].tolist())}
         except Exception as ex:
             case["error"] = "%s: %s" % (type(ex).__name__, str(ex)[:300])
+        if case.get("joint_other_differs"):
+            # the companion result of a joint compute was wrong: report it through the same fields
+            case["ndiff"] += case["joint_other_differs"]
+            case["maxulp"] = max(case["maxulp"], case["joint_other_ulp"])     # TLC applies the function's tolerance
         case.setdefault("ndiff_cells", case["ndiff"])
         case.setdefault("example", {"got": "", "ref": ""})
         out["cases"].append(case)
